@@ -347,21 +347,12 @@ SITES = [
     ("ksp_exact", CORE + "/algorithm/search/ksp/ksp_termination_criteria.rs", "terminate_search", r"solution_size", r"k"),
     ("ksp_max_iteration", CORE + "/algorithm/search/ksp/ksp_termination_criteria.rs", "terminate_search", r"\*max as usize", r"k"),
     ("ksp_factor", CORE + "/algorithm/search/ksp/ksp_termination_criteria.rs", "terminate_search", r"\(\*factor as usize\)\.saturating_mul\(solution_size\)", r"k"),
-    ("restriction_weight", APP + "/app/compass/config/frontier_model/vehicle_restrictions/vehicle_restriction.rs", None, r"weight_in_restriction_unit", r"\*restriction_weight"),
-    ("restriction_weight_per_axle", APP + "/app/compass/config/frontier_model/vehicle_restrictions/vehicle_restriction.rs", None, r"weight_per_axle", r"\*restriction_weight"),
-    ("restriction_length", APP + "/app/compass/config/frontier_model/vehicle_restrictions/vehicle_restriction.rs", None, r"length_in_restriction_unit", r"\*restriction_length"),
-    ("restriction_width", APP + "/app/compass/config/frontier_model/vehicle_restrictions/vehicle_restriction.rs", None, r"width_in_restriction_unit", r"\*restriction_width"),
-    ("restriction_height", APP + "/app/compass/config/frontier_model/vehicle_restrictions/vehicle_restriction.rs", None, r"height_in_restriction_unit", r"\*restriction_height"),
-    ("restriction_trailer_length", APP + "/app/compass/config/frontier_model/vehicle_restrictions/vehicle_restriction.rs", None, r"trailer_length_in_restriction_unit", r"\*restriction_length"),
     ("vertex_match_tolerance", APP + "/plugin/input/default/vertex_rtree/plugin.rs", None, r"&distance", r"tolerance_distance"),
     ("edge_match_tolerance", APP + "/plugin/input/default/edge_rtree/edge_rtree_input_plugin.rs", None, r"distance", r"tolerance"),
     ("phev_battery_left", PT + "/routee/vehicle/default/phev.rs", None, r"battery_soc_percent", r"0\.0"),
     ("energy_rate_floor", PT + "/routee/prediction/prediction_model_ops.rs", None, r"energy_rate", r"minimum_energy_rate"),
     ("custom_u64_negative", CORE + "/model/state/custom_feature_format.rs", None, r"value", r"&StateVar::ZERO"),
     ("scc_largest", CORE + "/algorithm/component/scc.rs", None, r"component\.len\(\)", r"largest_component\.len\(\)"),
-    ("create_time_speed", CORE + "/model/unit/builders.rs", None, r"s", r"Speed::ZERO"),
-    ("create_time_distance", CORE + "/model/unit/builders.rs", None, r"d", r"Distance::ZERO"),
-    ("create_speed_time", CORE + "/model/unit/builders.rs", None, r"t", r"Time::ZERO"),
     ("speed_from_str_negative", CORE + "/model/unit/speed.rs", None, r"value", r"0\.0"),
     ("loader_src_in_range", CORE + "/model/network/graph_loader.rs", None, r"e\.src_vertex_id\.0", r"vertices\.len\(\)"),
     ("loader_dst_in_range", CORE + "/model/network/graph_loader.rs", None, r"e\.dst_vertex_id\.0", r"vertices\.len\(\)"),
